@@ -6,6 +6,7 @@ package main
 
 import (
 	"fmt"
+	"strings"
 
 	"golang.org/x/tools/go/ssa"
 )
@@ -20,15 +21,123 @@ func StrLess(a, b *T) *T {
 	return mk("str.<", BoolS, a, b)
 }
 
-func parts(t *T) []*T {
-	if t.Op == "str.++" {
-		return t.Args
+// byteOf recognises the one-byte string str.from_code(bv2nat(extract(hi, hi-7, x))) and returns (x, hi).
+func byteOf(t *T) (*T, int, bool) {
+	if t.Op != "str.from_code" || t.Args[0].Op != "bv2nat" {
+		return nil, 0, false
 	}
-	if t.IsConst() && t.Str == "" {
-		return nil
+	b := t.Args[0].Args[0]
+	var hi, lo int
+	if n, _ := fmt.Sscanf(b.Op, "(_ extract %d %d)", &hi, &lo); n == 2 && hi-lo == 7 {
+		return b.Args[0], hi, true
 	}
-	return []*T{t}
+	return nil, 0, false
 }
+
+// parts flattens a key into its concatenated pieces; eight consecutive bytes that spell a 64-bit value big-endian are
+// folded into one be64 word (used for comparison only).
+func parts(t *T) []*T {
+	var ps []*T
+	if t.Op == "str.++" {
+		ps = t.Args
+	} else if !(t.IsConst() && t.Str == "") {
+		ps = []*T{t}
+	}
+	var out []*T
+	for i := 0; i < len(ps); i++ {
+		if x, hi, ok := byteOf(ps[i]); ok && hi == 63 && x.Sort.W == 64 && i+7 < len(ps) {
+			word := true
+			for j := 1; j < 8; j++ {
+				y, h, ok := byteOf(ps[i+j])
+				if !ok || y != x || h != 63-8*j {
+					word = false
+					break
+				}
+			}
+			if word {
+				w := UF("be64", StrS, x)
+				w.FixLen = 8
+				out = append(out, w)
+				i += 7
+				continue
+			}
+		}
+		out = append(out, ps[i])
+	}
+	return out
+}
+
+// wordEq reduces the equality of two concatenations to bit-vector equalities when they have the same shape and differ
+// only in big-endian words (or are decided by constants); ok is false when no such reduction applies.
+func wordEq(a, b *T) (*T, bool) {
+	pa, pb := parts(a), parts(b)
+	// constants and decimal numerals only: equal strings have the same non-digit skeleton
+	if sa, ok := skeleton(pa); ok {
+		if sb, ok := skeleton(pb); ok && sa != sb {
+			return tFalse, true
+		}
+	}
+	if len(pa) != len(pb) {
+		return nil, false
+	}
+	r := tTrue
+	words := false
+	for i := range pa {
+		x, y := pa[i], pb[i]
+		if x == y {
+			continue
+		}
+		if x.IsConst() && y.IsConst() {
+			if len(x.Str) == len(y.Str) {
+				return tFalse, true
+			}
+			return nil, false
+		}
+		wx, okx := be64Arg(x)
+		wy, oky := be64Arg(y)
+		if okx && oky {
+			r = And(r, Eq(wx, wy))
+			words = true
+			continue
+		}
+		// decimal numerals at the same position, delimited by the same constants containing a non-digit: digit strings
+		// cannot absorb the delimiter, so the numerals are equal piecewise
+		if x.Op == "uf" && x.Name == "dec" && y.Op == "uf" && y.Name == "dec" {
+			delimited := func(ps []*T, i int) bool {
+				return i+1 == len(ps) || ps[i+1].IsConst() && strings.IndexFunc(ps[i+1].Str, func(c rune) bool { return c < '0' || c > '9' }) >= 0
+			}
+			if delimited(pa, i) && delimited(pb, i) && (i+1 == len(pa) || pa[i+1] == pb[i+1]) {
+				r = And(r, Eq(x.Args[0], y.Args[0]))
+				words = true
+				continue
+			}
+		}
+		return nil, false
+	}
+	return r, words || r.IsConst()
+}
+
+// skeleton is the sequence of non-digit bytes of a concatenation of constants and decimal numerals.
+func skeleton(ps []*T) (string, bool) {
+	var sb strings.Builder
+	for _, p := range ps {
+		switch {
+		case p.IsConst():
+			for i := 0; i < len(p.Str); i++ {
+				if c := p.Str[i]; c < '0' || c > '9' {
+					sb.WriteByte(c)
+				}
+			}
+		case p.Op == "uf" && p.Name == "dec":
+		default:
+			return "", false
+		}
+	}
+	return sb.String(), true
+}
+
+// keyEq is equality of two key terms, word-wise where both spell big-endian words at the same position.
+func keyEq(a, b *T) *T { return Eq(a, b) }
 
 func be64Arg(t *T) (*T, bool) {
 	if t.Op == "uf" && t.Name == "be64" {
@@ -153,7 +262,7 @@ func (e *Engine) iterate(c *CtxVal, name string, start, end *T) []iterEntry {
 		}
 		dup := false
 		for _, x := range in {
-			if e.branch(Eq(x.k, k)) {
+			if e.branch(keyEq(x.k, k)) {
 				dup = true
 				break
 			}
